@@ -39,14 +39,17 @@ impl Vector {
 
     pub fn clone_vector(&self, start: Option<usize>, end: Option<usize>) -> Vec<VCell> {
         let v = self.vector.borrow();
-        let mut start = start.unwrap_or(0);
-        if start > v.len() {
-            start = v.len();
+        let start = start.unwrap_or(0);
+        if start >= v.len() {
+            return vec![];
         }
 
         let mut end = end.unwrap_or(v.len() - 1);
         if end >= v.len() {
             end = v.len() - 1;
+        }
+        if end < start {
+            return vec![];
         }
 
         Vec::from(&v[start..=end])
